@@ -12,34 +12,44 @@ from vfw.engine import Phase, PropertyViolation
 
 PROPERTY_ID = "C16"
 RULE = (
-    "Generator: feasible pathway-family ModelSpecs (2-4 metabolites x 3-7 reactions, finite bounds <= 100, extra "
-    "boundary/conversion reactions so that the flux polytope mostly has dimension >= 2), post-processed with 0-2 "
-    "modifications placed inside the exact flux ranges so that the model stays feasible: forced flux (lb>0 or ub<0), "
-    "flux fixed at a non-zero value or at 0, user linear constraints over 1-3 net fluxes (one-sided, two-sided, "
-    "equality with zero or non-zero right side) x method (achr, optgp) x entry point (sample(), sampler.sample, "
-    "sampler.batch) x fluxes True/False x n 1-30 x thinning {1,3,10} x nproj {default,1,2,7,100} x seed x processes "
-    "{1,2,3} (optgp; pools in a minority of cases). Oracle: numpy check computed from the spec only: max|S v| <= "
-    "1e-6, lb-1e-6 <= v <= ub+1e-6, user rows within 1e-6; variable-space frames: each forward/reverse variable "
-    "within the bounds of the documented split, and fwd-rev passes the flux-space check; row count n (optgp: "
-    "ceil(n/processes)*processes), columns = reaction ids in model order (variable names in model order); a second "
-    "run with the same seed (same model object or a freshly built one) gives the identical frame; sampler.validate "
-    "returns 'v' for rows whose independent residual is <= 1e-8 and a code containing l/u/e for copies the harness "
-    "pushes 1e-3 below a lower bound / above an upper bound / off steady state (exactly 'e' when the push stays "
-    "strictly inside the bounds); model snapshot unchanged; ValueError only for polytopes of exact dimension <= 1 "
-    "(documented refusal), TypeError exactly for models with an integer variable. Non-trivial: >= 5 pairwise "
-    "distinct sample rows on a polytope whose exact dimension (n - rank of all explicit and implicit equalities) "
-    "is >= 2."
+    "Generator: feasible pathway-family ModelSpecs (2-4 metabolites x 3-7 reactions, finite bounds: <= 100, uptake up "
+    "to 1000), extra boundary reactions so that ~90% of the flux polytopes have exact dimension >= 2 (points and "
+    "segments kept as a minority), post-processed with 0-2 modifications placed on a 1/4 grid inside the exact flux "
+    "ranges so that the model stays feasible: forced flux (lb>0 or ub<0), flux fixed at a non-zero value or at 0, user "
+    "linear constraints over 1-3 net fluxes (one-sided, two-sided, equality with zero or non-zero right side) x "
+    "method (achr, optgp) x entry point (sample(), sampler.sample, sampler.batch with 2-3 batches) x fluxes "
+    "True/False x n 1-30 x thinning {1,3,10} x nproj {default,1,2,7,100} x seed (small, 31-bit, > 2^31) x processes "
+    "{1,2,3} (optgp; pools in ~15% of the cases); 3% of the models get an integer variable. Oracle: numpy check "
+    "computed from the spec only: max|S v| <= 1e-6, lb-1e-6 <= v <= ub+1e-6, user rows within 1e-6; variable-space "
+    "frames: each forward/reverse variable within the bounds of the documented split, and fwd-rev passes the "
+    "flux-space check; row count n (optgp: ceil(n/processes)*processes) per frame, columns = reaction ids in model "
+    "order (variable names in model order); a second run with the same seed (same model object or a freshly built "
+    "one) gives the identical frame; sampler.validate returns 'v' for rows whose independent residual is <= 1e-8 "
+    "and, in one call on a feasible row plus copies the harness pushes 1e-3 below a lower bound / above an upper "
+    "bound / off steady state / (variable space) beyond a user inequality, 'v' for the feasible row and a code "
+    "containing l / u / e / l-or-u for the copies (exactly 'e' in flux space when the push stays strictly inside the "
+    "bounds); model snapshot unchanged after every run; ValueError accepted only for polytopes of exact dimension "
+    "<= 1 or regions that exclude the origin (documented refusals: single point / inhomogeneous problem), TypeError "
+    "required exactly for models with an integer variable; any other exception is reported. Non-trivial: >= 5 "
+    "pairwise distinct sample rows on a polytope whose exact dimension (n - rank of all explicit and implicit "
+    "equalities, implicit ones found by exact LP) is >= 2."
 )
 ASSUMPTIONS = [
     "Absolute tolerance 1e-6 on steady state, flux bounds and user constraints (the sampler works with model.tolerance = 1e-7 "
     "per solver variable; one order of slack for the forward-reverse difference and row sums).",
     "validate() is only required to answer 'v' for rows whose independent residuals are <= 1e-8 and to flag rows the harness "
     "moved by 1e-3 (10^4 x tolerance); rows between are not asserted (counted as undetermined).",
-    "A ValueError is a documented refusal only when the exact polytope dimension is <= 1 (single point, or a segment: two "
-    "search directions); a RuntimeError ('cannot escape sampling region') or any refusal on a polytope of dimension >= 2 is "
-    "reported, because the statement promises the requested number of samples for every feasible finite model.",
-    "Same seed => identical frame is required bit for bit (same process, same numpy/GLPK calls).",
-    "Feasibility is decided for the samples drawn, not for every sample that could be drawn.",
+    "A ValueError is a documented refusal ('flux cone contains a single point or the problem is inhomogeneous') when the exact "
+    "polytope dimension is <= 1 or the region does not contain the origin; a ValueError on a region of dimension >= 2 that "
+    "contains the origin, a RuntimeError ('cannot escape sampling region') or any other exception is reported, because the "
+    "statement promises the requested number of samples for every feasible finite model.",
+    "Same seed => identical frame is required bit for bit (same process, same numpy/GLPK calls); nothing is required of "
+    "different seeds.",
+    "Feasibility is decided for the samples drawn, not for every sample that could be drawn; models are small and well "
+    "conditioned, so drift of long chains on genome-scale models (what nproj exists for) is out of reach.",
+    "Known-finding switches: 'two-warmup-points-off-origin' accepts the RuntimeError only when the region excludes the origin "
+    "and the sampler's own warmup matrix is two points plus an infeasible 0.25*(w1+w2); 'validate-varspace-inequalities' "
+    "skips validate() on variable-space frames of models with user inequality constraints.",
 ]
 SIG_TWO_POINTS = "two-warmup-points-off-origin"
 SIG_VALIDATE = "validate-varspace-inequalities"
@@ -225,13 +235,13 @@ def cases(draw):
         "path": draw(st.sampled_from(build.BUILD_PATHS)),
         "method": method,
         "api": api,
-        "fluxes": True if api == "function" else draw(st.sampled_from([True, True, False])),
+        "fluxes": True if api == "function" else draw(st.sampled_from([True, False])),
         "n": draw(st.one_of(st.integers(1, 30), st.integers(5, 30), st.sampled_from([5, 8, 10, 20]))),
         "batch_num": draw(st.integers(2, 3)),
         "thinning": draw(st.sampled_from([1, 3, 10])),
         "nproj": None if api == "function" else draw(st.sampled_from([None, None, 1, 2, 7, 100])),
         "seed": draw(st.one_of(st.integers(1, 2**31 - 2), st.integers(1, 1000), st.integers(2**31, 2**40))),
-        "processes": draw(st.sampled_from([1, 1, 1, 1, 1, 2, 3])) if method == "optgp" else 1,
+        "processes": draw(st.sampled_from([1, 1, 1, 2, 3])) if method == "optgp" else 1,
         "rerun": draw(st.sampled_from(["same-model", "fresh-model"])),
         "integer": draw(st.sampled_from([False] * 29 + [True])),
     }
@@ -463,7 +473,6 @@ def check_case(case, ctx):
     build.reset_globals()
     spec = case["spec"]
     rids = [r["id"] for r in spec["rxns"]]
-    n_rxn = len(rids)
     classes = [f"method-{case['method']}", f"api-{case['api']}", f"fluxes-{case['fluxes']}", f"proc-{case['processes']}",
                f"thinning-{case['thinning']}", f"nproj-{case['nproj']}", f"rerun-{case['rerun']}"]
     classes += [f"mod-{m}" for m in case["mods"]] or ["mod-none"]
@@ -630,8 +639,8 @@ def hyp_phase(ctx):
 
 def phases(tier):
     if tier == "quick":
-        return [Phase("hyp", hyp_phase, shards=8, params={"max_examples": 220, "budget_s": 50})]
-    return [Phase("hyp", hyp_phase, shards=16, params={"max_examples": 1500, "budget_s": 500})]
+        return [Phase("hyp", hyp_phase, shards=8, params={"max_examples": 220, "budget_s": 40})]
+    return [Phase("hyp", hyp_phase, shards=16, params={"max_examples": 2000, "budget_s": 500})]
 
 
 CHECKS = {"sampling": check_case}
